@@ -16,6 +16,7 @@ import (
 	"bytes"
 	"crypto/sha256"
 	"fmt"
+	"reflect"
 	"runtime"
 	"sort"
 	"strings"
@@ -535,6 +536,24 @@ type caseOut struct {
 	n        *naive
 }
 
+// generate builds the generator of a case and calls NewBlockTemplate.
+func (u *unit) generate(cs caseSpec) (tmpl *mining.BlockTemplate, err error) {
+	pol := &mining.Policy{BlockMinWeight: cs.Policy.MinW, BlockMaxWeight: cs.Policy.MaxW, BlockMinSize: cs.Policy.MinSize,
+		BlockMaxSize: cs.Policy.MaxSize, BlockPrioritySize: cs.Policy.Prio, TxMinFreeFee: btcutil.Amount(cs.Policy.MinFree)}
+	src := &orderedSource{p: u.pool, order: map[chainhash.Hash]int{}}
+	for pos, idx := range cs.Perm {
+		src.order[u.txs[idx].Hash] = pos
+	}
+	u.clock.T = lab.Now
+	g := mining.NewBlkTmplGenerator(pol, u.g.Params, src, u.g.BC, u.clock, u.sigCache, u.hashC)
+	defer func() {
+		if r := recover(); r != nil {
+			err = fmt.Errorf("PANIC: %v", r)
+		}
+	}()
+	return g.NewBlockTemplate(payAddr(cs.Addr, u.g.Params))
+}
+
 func (u *unit) runCase(cs caseSpec, useCache bool) (out caseOut) {
 	w := u.w
 	add := func(sym, format string, a ...interface{}) {
@@ -844,8 +863,9 @@ func (u *unit) policies(addr string, o enumOpts) (list []policySpec, W, S int64,
 // ---------------------------------------------------------------------------
 
 type replayObj struct {
-	Case caseSpec `json:"case"`
-	Pool string   `json:"effective_pool"`
+	Case  caseSpec `json:"case"`
+	Pool  string   `json:"effective_pool"`
+	Indep string   `json:"independence_phase_world,omitempty"` // set: replay the template-independence phase on this world
 }
 
 // symKey: violation key = symptom class / world.  The one symptom that is a
@@ -1049,6 +1069,77 @@ func runUnit(r *ev.Run, jobIdx int, w *world, ps poolSpec, o enumOpts) {
 
 // ---------------------------------------------------------------------------
 
+// independencePhase: templates are values.  One unit (complete universe pool of the
+// world, which holds witness spends), one goroutine: a template is generated for
+// every policy of the unit's list in turn; every template generated so far is kept
+// together with the bytes of its block, its fee / sig-op lists and its commitment,
+// and after each later NewBlockTemplate call all kept ones are serialised again.
+// A template that changes when another one is generated (shared backing arrays,
+// pooled buffers, memoised transactions) cannot be mined any more; the parallel
+// phase below could only see that as verdicts that depend on what other workers
+// do, so this runs first and alone.
+func independencePhase(r *ev.Run, w *world) (found bool) {
+	full := uint32(1)<<uint(len(w.U)) - 1
+	ps := poolSpec{Kind: "U", Mask: full}
+	u, err := newUnit(w, ps)
+	if err != nil {
+		r.Broken("cannot create chain: %v", err)
+	}
+	defer u.close()
+	if u.harness != "" {
+		r.Broken("harness: %s", u.harness)
+	}
+	pols, _, _, _ := u.policies("p2pkh", enumOpts{permLimit: 1, addrs: []string{"p2pkh"}})
+	perm := make([]int, len(u.txs))
+	for i := range perm {
+		perm[i] = i
+	}
+	type kept struct {
+		pol    policySpec
+		addr   string
+		tmpl   *mining.BlockTemplate
+		raw    []byte
+		fees   []int64
+		costs  []int64
+		commit []byte
+	}
+	var keep []kept
+	for i, pol := range pols {
+		addr := []string{"p2pkh", "p2wpkh"}[i%2]
+		cs := caseSpec{World: w.Name, Pool: ps, Policy: pol, Perm: perm, Addr: addr}
+		tmpl, gerr := u.generate(cs)
+		r.Eval(1)
+		r.Trans(1)
+		if gerr != nil || tmpl == nil || tmpl.Block == nil {
+			continue // the parallel phase reports generation failures
+		}
+		for _, k := range keep {
+			now := serializeBlock(k.tmpl.Block)
+			what := ""
+			switch {
+			case !bytes.Equal(now, k.raw):
+				off := 0
+				for off < len(now) && off < len(k.raw) && now[off] == k.raw[off] {
+					off++
+				}
+				what = fmt.Sprintf("its block bytes differ from offset %d (%d bytes then, %d now)", off, len(k.raw), len(now))
+			case !bytes.Equal(k.tmpl.WitnessCommitment, k.commit):
+				what = fmt.Sprintf("its WitnessCommitment field changed from %x to %x", k.commit, k.tmpl.WitnessCommitment)
+			case !reflect.DeepEqual(k.tmpl.Fees, k.fees) || !reflect.DeepEqual(k.tmpl.SigOpCosts, k.costs):
+				what = "its Fees / SigOpCosts lists changed"
+			}
+			if what != "" {
+				r.Violation("template-independence/"+w.Name, fmt.Sprintf("world=%s pool=[%s]: the template generated with policy {%s} addr=%s changed when a later template was generated with policy {%s} addr=%s: %s", w.Name, u.poolKey(), k.pol, k.addr, pol, addr, what), replayObj{Indep: w.Name})
+				return true
+			}
+		}
+		keep = append(keep, kept{pol, addr, tmpl, serializeBlock(tmpl.Block), append([]int64(nil), tmpl.Fees...), append([]int64(nil), tmpl.SigOpCosts...), append([]byte(nil), tmpl.WitnessCommitment...)})
+		r.Nontrivial(fmt.Sprintf("indep|%s|%x", w.Name, sha256.Sum256(keep[len(keep)-1].raw)))
+	}
+	r.Add("independence_phase_templates_kept_and_rechecked["+w.Name+"]", int64(len(keep)))
+	return false
+}
+
 func worldNames() []string {
 	return []string{"plain", "halving5", "halving10", "reorg-post", "reorg-pre", "segwit-last-inactive", "segwit-first-active", "mtp-ahead", "mtp-equal", "mindiff", "advanced"}
 }
@@ -1078,6 +1169,13 @@ func main() {
 	if r.ReplayPath != "" {
 		var ro replayObj
 		r.LoadReplay(&ro)
+		if ro.Indep != "" {
+			if w, ok := worlds[ro.Indep]; ok {
+				independencePhase(r, w)
+				r.Finish(false)
+			}
+			r.Broken("replay: unknown world %q", ro.Indep)
+		}
 		w, ok := worlds[ro.Case.World]
 		if !ok {
 			r.Broken("replay: unknown world %q", ro.Case.World)
@@ -1168,7 +1266,19 @@ func main() {
 			jobs = append(jobs, job{worlds[wn], poolSpec{Kind: "p2sh", A: k}, cOpts})
 		}
 	}
+	dependent := false
+	for _, wn := range []string{"plain", "segwit-first-active", "mindiff"} {
+		if independencePhase(r, worlds[wn]) {
+			dependent = true
+		}
+	}
 	workers := runtime.NumCPU()
+	if dependent {
+		// templates influence each other: what the workers of the parallel phase
+		// would observe depends on their interleaving; nothing more is claimed
+		r.Cap("templates are not independent of each other (see the violation): the parallel enumeration was not run")
+		r.Finish(false)
+	}
 	ev.Par(len(jobs), workers, func(i int) {
 		j := jobs[i]
 		runUnit(r, i, j.w, j.ps, j.o)
